@@ -1156,7 +1156,30 @@ pub fn check_c13(prog: &NetProgram, faulty: &NetResult, twin: &NetResult, info: 
         info.nontrivial = !victims.is_empty() && healthy_busy;
         return;
     }
-    let mut expect_err: Vec<String> = victims.iter().filter(|v| !task_victim(**v) && !prog.modules[**v].catching).map(|v| module_path(prog, *v)).collect();
+    // the stereotype that counts is the one in force when the panic happens (a callback may change it before it panics)
+    let catching_at_panic = |v: usize| -> bool {
+        let sp = &prog.modules[v];
+        let mut c = sp.catching;
+        let mut beats: Vec<&Beat> = sp.beats.iter().collect();
+        beats.sort_by_key(|b| b.at_ns);
+        for b in beats {
+            for a in &b.acts {
+                match a {
+                    Act::SetCatching { v } => c = *v,
+                    Act::Panic => return c,
+                    _ => {}
+                }
+            }
+        }
+        c
+    };
+    let sets_stereotype = |v: usize| prog.modules[v].beats.iter().any(|b| b.acts.iter().any(|a| matches!(a, Act::SetCatching { .. })));
+    // (for victims that change their stereotype only the beat panic path is predicted)
+    if victims.iter().any(|v| sets_stereotype(*v) && (prog.modules[*v].panic_at != 255 || prog.modules[*v].rx.iter().any(|r| matches!(r.act, Act::Panic)))) {
+        info.nontrivial = !victims.is_empty() && healthy_busy;
+        return;
+    }
+    let mut expect_err: Vec<String> = victims.iter().filter(|v| !task_victim(**v) && !catching_at_panic(**v)).map(|v| module_path(prog, *v)).collect();
     expect_err.sort();
     // joined tasks that panicked must be attributed to their module
     for &v in victims.iter().filter(|v| task_victim(**v)) {
@@ -1220,7 +1243,7 @@ pub fn check_c09(prog: &NetProgram, res: &NetResult, info: &mut RunInfo) {
     }
     if res.ok.is_none() {
         // expected errors: unfinished joined tasks, and the panic of a module whose reset() is scripted to panic
-        let expected = |k: &str, p: &str| k == "join-not-finished" || (k == "panic" && prog.modules.iter().enumerate().any(|(m, sp)| sp.reset_panics && module_path(prog, m) == p));
+        let expected = |k: &str, p: &str| k == "join-not-finished" || (k == "panic" && prog.modules.iter().enumerate().any(|(m, sp)| (sp.reset_panics || sp.crash_reboot) && module_path(prog, m) == p));
         if res.started && !res.errors.iter().all(|(k, p)| expected(k, p)) {
             info.violate(Violation::new("C09", "run-error", format!("run without panics returned errors {:?}", res.errors)));
         }
@@ -1357,8 +1380,27 @@ pub fn check_c09(prog: &NetProgram, res: &NetResult, info: &mut RunInfo) {
             downs[m][di].start_seq = first_start;
         }
     }
+    // a module that panicked without asking for a shutdown in the same event is dead from then on in a way this
+    // property does not describe (C13's subject): nothing about it is predicted after that instant
+    let mut dead_from: Vec<Option<u64>> = vec![None; nmod];
+    for (i, r) in tr.iter().enumerate() {
+        if matches!(r.ev, Ev::PanicNow) {
+            let m = r.m as usize;
+            // covered by a shutdown request of the same event iff the module's next record is its reset
+            let next = tr[i + 1..].iter().find(|x| x.m as usize == m);
+            let covered = matches!(next, Some(Rec { ev: Ev::Reset { .. }, .. }));
+            if !covered && dead_from[m].is_none() {
+                dead_from[m] = Some(r.t);
+            }
+        }
+    }
     // active(m, t): Some(true) strictly up, Some(false) strictly down, None on a boundary instant
     let status = |m: usize, t: u64| -> Option<bool> {
+        if let Some(tp) = dead_from[m] {
+            if t >= tp {
+                return None;
+            }
+        }
         for d in &downs[m] {
             if t == d.from_t || Some(t) == d.until_t {
                 return None;
@@ -1395,26 +1437,44 @@ pub fn check_c09(prog: &NetProgram, res: &NetResult, info: &mut RunInfo) {
         // gates the message stands on, with the time it is there: sending gate, then every gate reached
         let mut certainly_dropped = false;
         let mut uncertain = false;
-        let mut check = |m: usize, t: u64, certainly_dropped: &mut bool, uncertain: &mut bool| match status(m, t) {
+        let offer_seq = r.seq;
+        let zero_class = *delay_ns == 0 && hops.iter().all(|h| h.1.is_none());
+        let mut check = |m: usize, t: u64, last: bool, certainly_dropped: &mut bool, uncertain: &mut bool| match status(m, t) {
             Some(true) => {}
             Some(false) => *certainly_dropped = true,
-            None => *uncertain = true,
+            None => {
+                // A module that restarts in the very instant of its shutdown (restart delay 0): its restart event is queued
+                // for the current instant at the end of the requesting event. A message sent afterwards in that instant over a
+                // channel-free path is queued behind it (events of the current instant run in scheduling order, C03), so the
+                // module is up again when the message is handled.
+                // (only the final receiver is looked at when the message is handled; gates left behind on the way are
+                // checked inline at send time)
+                // (only if this is the module's single shutdown of that instant - with repeated zero-delay cycles the
+                // message may fall into a later downtime of the same instant)
+                let after_zero_restart = last
+                    && zero_class
+                    && m != from.0
+                    && downs[m].iter().filter(|d| d.from_t == t || d.until_t == Some(t)).count() == 1
+                    && downs[m].iter().any(|d| d.from_t == t && d.until_t == Some(t) && offer_seq > d.reset_seq);
+                if !after_zero_restart {
+                    *uncertain = true;
+                }
+            }
         };
         // the sending gate is left behind at the (possibly delayed) send time
         if *delay_ns > 0 || !hops.is_empty() {
             if *delay_ns > 0 {
-                check(from.0, t, &mut certainly_dropped, &mut uncertain);
+                check(from.0, t, false, &mut certainly_dropped, &mut uncertain);
             }
         }
         for (i, (g, ch)) in hops.iter().enumerate() {
             if let Some(c) = ch {
                 t += busy_ns(*len as usize, c.bitrate) + c.latency_ns;
             }
-            let _ = i;
-            check(g.0, t, &mut certainly_dropped, &mut uncertain);
+            check(g.0, t, i + 1 == hops.len(), &mut certainly_dropped, &mut uncertain);
         }
         if hops.is_empty() {
-            check(from.0, t, &mut certainly_dropped, &mut uncertain);
+            check(from.0, t, true, &mut certainly_dropped, &mut uncertain);
         }
         let dest = hops.last().map_or(from, |h| h.0).0;
         let arr = arrivals.get(uid).cloned().unwrap_or_default();
@@ -1453,6 +1513,9 @@ pub fn check_c09(prog: &NetProgram, res: &NetResult, info: &mut RunInfo) {
     }
     // own timers (beats) of every module: present outside downtime, absent inside
     for m in 0..nmod {
+        if dead_from[m].is_some() {
+            continue;
+        }
         let spec = &prog.modules[m];
         let mut starts: Vec<(u16, u64)> = vec![(0, 0)];
         for (k, d) in downs[m].iter().enumerate() {
